@@ -440,6 +440,57 @@ theorem stop_members (rest : List (List Char × JDoc)) (k : List Char) :
   | nil => exact Or.inr ⟨k, Or.inr (Or.inr (by rw [printMembersK]))⟩
   | cons kd rest => obtain ⟨key, d⟩ := kd; exact Or.inr ⟨_, Or.inl (by rw [printMembersK])⟩
 
+omit P in
+theorem parseValue_arr (f depth : Nat) (c : Char) (t : List Char) (hd0 : depth ≠ 0)
+    (hws : isWs c = false) (hne : c ≠ ']') :
+    parseValue (f + 1) depth ('[' :: c :: t) = parseElems f (depth - 1) (c :: t) [] := by
+  rw [parseValue, skipWs_of_not_ws '[' _ (by decide)]
+  simp only [hd0, if_false, skipWs_of_not_ws c t hws]
+  split
+  · rename_i heq; injection heq with e1 _; exact absurd e1 hne
+  · rfl
+
+omit P in
+theorem parseValue_obj (f depth : Nat) (t : List Char) (hd0 : depth ≠ 0) :
+    parseValue (f + 1) depth ('{' :: '"' :: t) = parseMembers f (depth - 1) ('"' :: t) [] := by
+  rw [parseValue, skipWs_of_not_ws '{' _ (by decide)]
+  simp only [hd0, if_false, skipWs_of_not_ws '"' t (by decide)]
+  split
+  · rename_i heq; injection heq with e1 _; exact absurd e1 (by decide)
+  · rfl
+
+omit P in
+theorem parseElems_comma (f depth : Nat) (cs rest' : List Char) (acc : List Value) (v : Value)
+    (hv : parseValue f depth cs = some (v, ',' :: rest')) :
+    parseElems (f + 1) depth cs acc = parseElems f depth rest' (v :: acc) := by
+  rw [parseElems, hv]
+  simp only [skipWs_of_not_ws ',' rest' (by decide)]
+
+omit P in
+theorem parseElems_close (f depth : Nat) (cs rest' : List Char) (acc : List Value) (v : Value)
+    (hv : parseValue f depth cs = some (v, ']' :: rest')) :
+    parseElems (f + 1) depth cs acc = some (.arr (v :: acc).reverse, rest') := by
+  rw [parseElems, hv]
+  simp only [skipWs_of_not_ws ']' rest' (by decide)]
+
+omit P in
+theorem parseMembers_comma (f depth : Nat) (body rest2 rest4 : List Char) (acc : Fields)
+    (key : String) (v : Value)
+    (hk : parseStr (body.length + 1) body [] = some (key, ':' :: rest2))
+    (hv : parseValue f depth rest2 = some (v, ',' :: rest4)) :
+    parseMembers (f + 1) depth ('"' :: body) acc = parseMembers f depth rest4 (Fields.put key v acc) := by
+  rw [parseMembers, skipWs_of_not_ws '"' _ (by decide)]
+  simp only [hk, skipWs_of_not_ws ':' rest2 (by decide), hv, skipWs_of_not_ws ',' rest4 (by decide)]
+
+omit P in
+theorem parseMembers_close (f depth : Nat) (body rest2 rest4 : List Char) (acc : Fields)
+    (key : String) (v : Value)
+    (hk : parseStr (body.length + 1) body [] = some (key, ':' :: rest2))
+    (hv : parseValue f depth rest2 = some (v, '}' :: rest4)) :
+    parseMembers (f + 1) depth ('"' :: body) acc = some (.obj (Fields.put key v acc), rest4) := by
+  rw [parseMembers, skipWs_of_not_ws '"' _ (by decide)]
+  simp only [hk, skipWs_of_not_ws ':' rest2 (by decide), hv, skipWs_of_not_ws '}' rest4 (by decide)]
+
 mutual
 theorem parseValue_print : ∀ (d : JDoc) (fuel depth : Nat) (k : List Char),
     need d ≤ fuel → depthOf d ≤ depth → Stop k → NumsOK P d →
@@ -485,13 +536,10 @@ theorem parseValue_print : ∀ (d : JDoc) (fuel depth : Nat) (k : List Char),
     obtain ⟨hws, hne, _, _⟩ := hv.facts
     have ih := parseElems_print (d :: ds) f (depth - 1) k []
       (by simp only [need] at hf; omega) (by simp only [depthOf] at hd; omega) hnl
-    rw [printK, parseValue]
-    simp only [skipWs, isWs, Bool.or_self, Bool.false_eq_true, if_false, hd0]
-    rw [hc, skipWs_of_not_ws c t hws]
+    simp only at ih
     rw [hc] at ih
-    split
-    · rename_i heq; injection heq with e1 _; exact absurd e1 hne
-    · simpa [toValue] using ih
+    rw [printK, hc, parseValue_arr f depth c t hd0 hws hne, ih]
+    simp [toValue]
   | .obj [], fuel, depth, k, hf, hd, _, _ => by
     obtain ⟨f, rfl⟩ : ∃ f, fuel = f + 1 := ⟨fuel - 1, by simp [need] at hf; omega⟩
     have hd0 : depth ≠ 0 := by simp [depthOf] at hd; omega
@@ -502,9 +550,9 @@ theorem parseValue_print : ∀ (d : JDoc) (fuel depth : Nat) (k : List Char),
     have hnl : NumsOKm P ((key, d) :: rest) := hn
     have ih := parseMembers_print ((key, d) :: rest) f (depth - 1) k []
       (by simp only [need] at hf; omega) (by simp only [depthOf] at hd; omega) hnl
-    rw [printK, parseValue]
-    simp only [skipWs, isWs, Bool.or_self, Bool.false_eq_true, if_false, hd0]
-    simpa [toValue] using ih
+    simp only at ih
+    rw [printK, parseValue_obj f depth _ hd0, ih]
+    simp [toValue]
 
 theorem parseElems_print : ∀ (l : List JDoc) (fuel depth : Nat) (k : List Char) (acc : List Value),
     needElems l ≤ fuel → depthElems l ≤ depth → NumsOKs P l →
@@ -520,15 +568,17 @@ theorem parseElems_print : ∀ (l : List JDoc) (fuel depth : Nat) (k : List Char
       (by simp only [needElems] at hf; omega) (by simp only [depthElems] at hd; omega)
       (stop_elems P ds k) hn.1
     simp only
-    rw [parseElems, hv]
     cases ds with
-    | nil => simp [printElemsK, skipWs, isWs, toValues]
+    | nil =>
+      rw [printElemsK] at hv ⊢
+      rw [parseElems_close f depth _ k acc (toValue d) hv]
+      simp [toValues]
     | cons d' ds' =>
       have ih := parseElems_print (d' :: ds') f depth k (toValue d :: acc)
         (by simp only [needElems] at hf ⊢; omega) (by simp only [depthElems] at hd ⊢; omega) hn.2
       simp only at ih
-      simp only [printElemsK, skipWs, isWs, Bool.or_self, Bool.false_eq_true, if_false]
-      rw [ih]
+      rw [printElemsK] at hv ⊢
+      rw [parseElems_comma f depth _ _ acc (toValue d) hv, ih]
       simp [toValues]
 
 theorem parseMembers_print : ∀ (l : List (List Char × JDoc)) (fuel depth : Nat) (k : List Char) (acc : Fields),
@@ -549,21 +599,21 @@ theorem parseMembers_print : ∀ (l : List (List Char × JDoc)) (fuel depth : Na
     have hstr := parseStr_esc key (':' :: printK P d (printMembersK P rest ('}' :: k))) []
       ((escK key ('"' :: ':' :: printK P d (printMembersK P rest ('}' :: k)))).length + 1)
       (by simp at hlen ⊢; omega)
+    simp only [List.reverse_nil, List.nil_append] at hstr
     simp only
-    rw [parseMembers]
-    simp only [skipWs, isWs, Bool.or_self, Bool.false_eq_true, if_false, hstr, List.nil_append, List.reverse_nil]
-    obtain ⟨c, t, hc, hvs⟩ := printK_head P d hn.1 (printMembersK P rest ('}' :: k))
-    rw [hv]
     cases rest with
-    | nil => simp [printMembersK, skipWs, isWs, toFields]
+    | nil =>
+      rw [printMembersK] at hv hstr ⊢
+      rw [parseMembers_close f depth _ _ k acc _ (toValue d) hstr hv]
+      simp [toFields]
     | cons kd' rest' =>
       obtain ⟨key', d'⟩ := kd'
       have ih := parseMembers_print ((key', d') :: rest') f depth k
         (Fields.put (String.ofList key) (toValue d) acc)
         (by simp only [needMembers] at hf ⊢; omega) (by simp only [depthMembers] at hd ⊢; omega) hn.2
       simp only at ih
-      simp only [printMembersK, skipWs, isWs, Bool.or_self, Bool.false_eq_true, if_false]
-      rw [ih]
+      rw [printMembersK] at hv hstr ⊢
+      rw [parseMembers_comma f depth _ _ _ acc _ (toValue d) hstr hv, ih]
       simp [toFields]
 end
 
